@@ -372,6 +372,10 @@ class Env:
                     pr = _solve_pair(x)
                     if pr:
                         ties.append(pr)
+            elif b and isinstance(c, S.SymBool) and c.op == '==':
+                pr = _solve_pair(c.val)
+                if pr:
+                    ties.append(pr)
         rng = random.Random(_stable_seed(self.seed, "w", len(d.p)))
         best = None
         found = 0
